@@ -11,6 +11,7 @@
   (C13 finding), merged `_data_dict`, sticky cast dtype — is not covered by a theorem; it is exercised by the C14
   history oracle (fresh-process comparison).
 -/
+import Dlismodel.Proofs.FrameIdx
 import Dlismodel.Model.Cache
 import Dlismodel.Proofs.Defaults
 namespace Dlis.C14
@@ -136,5 +137,11 @@ example :
     s1.held = some [2] ∧ r2.2 = .ok () ∧ r2.1.held = some [3] ∧
       (paramCheckSt true v3 (some 1) none (DimState.assigned (some [2]))).2 = .error .runtime := by
   decide +kernel
+
+/-- the same for the index attributes a frame derives from the rows of a write (`Model/FrameIdx.lean`) -/
+theorem derived_index_attributes_history_independent (h : List (Bool × Bool × List Int)) (hc indexed : Bool)
+    (xs : List Int) (s : FrameIdx) :
+    frameSetup hc indexed xs (frameHistory h s) = frameSetup hc indexed xs s.forget :=
+  frameSetup_after_any_history h hc indexed xs s
 
 end Dlis.C14
